@@ -35,7 +35,7 @@ PROPS["C02"] = dict(
     module="Texel.Properties.C02",
     translators=[],
     theorems=["Texel.C02.C02_pixel_test", "Texel.C02.C02_hot_closed", "Texel.C02.C02_routing", "Texel.C02.C02_routing_index",
-              "Texel.C02.C02_nodup", "Texel.C02.C02_routed_nonempty"],
+              "Texel.C02.C02_nodup", "Texel.C02.C02_routed_nonempty", "Texel.C02.C02_second_sentence_ring", "Texel.C02.C02_second_sentence_polygon"],
     streams=["li", "li-large", "route", "route-random", "snap", "model-functional-vs-reference"],
     trusted=["Model.Geom/Model.Route are hand-written mirrors of containsPoint, lineIntersects, findIntersectingQuadrants, snapClosestPoints, InsertPoint, insertCoord; "
              "tied by the li/route correspondence (exhaustive small scopes) through the verif hooks XLineIntersects, XNew, InsertCoord, XSnapInt",
@@ -45,7 +45,7 @@ PROPS["C02"] = dict(
     level_text="First sentence: theorems for every grid, segment, parent-closed hot set and level (no bound): the pixel test is exactly 'closed segment meets half-open pixel', "
                "the descent returns exactly the hot pixels met, without repetition, in travel order, and never nothing for a polygon edge. The model is tied to pointindex by an exhaustive "
                "correspondence (all 12 005 small li cases; thorough: all quarter-lattice segments x all 512 hot subsets of a 3x3 window at three placements) and the exact oracle runs on every implementation answer. "
-               "Second sentence (non-collapsing polygons come back as the concatenation of routed edges): decided per generated valid polygon by an oracle against the model's routed chains, plus the snap correspondence.",
+               "Second sentence: proved ring by ring (a ring whose routed chain has at least three pixels and visits none twice comes back from cleanupNewRing = closing duplicate + kmpDeduplicate + splitRing as exactly that chain, correctly oriented: C02_second_sentence_ring) and for polygons without holes (exactly one polygon with exactly that ring: C02_second_sentence_polygon); for polygons with holes the assembly is decided per generated valid polygon by an oracle against the model's routed chains, plus the snap correspondence.",
     level_note="Trusted: Lean kernel; the hand-written model is tied by differential testing, not by translation; float<->int conversion at the API boundary is outside the model (ops carry the int64 coordinates).",
 )
 
